@@ -10,10 +10,11 @@ use std::{
 use crate::{
     context::CommonContext,
     instruction::operation::Operation,
-    parser::{
-        parse_iter, CodePoint, Item, Macro, ParseContext, ParseResult, Paths, Segment, SegmentType,
-    },
+    parser::{parse_iter, CodePoint, Item, Macro, ParseContext, ParseResult, Paths, Segment},
 };
+
+#[cfg(test)]
+use crate::parser::SegmentType;
 
 use crate::instruction::InstructionOps;
 use failure::{bail, Error};
@@ -106,19 +107,12 @@ pub fn build_pass_0(
     };
 
     for segment in parsed.segments {
-        match segment.t {
-            SegmentType::Data | SegmentType::Eeprom => {
-                context.add_segment(segment.clone());
-            }
-            SegmentType::Code => {
-                context.add_segment(Segment {
-                    address: segment.address,
-                    t: segment.t,
-                    items: vec![],
-                });
-                pass0_internal(segment.clone(), &context, &parsed.macroses)?;
-            }
-        }
+        context.add_segment(Segment {
+            address: segment.address,
+            t: segment.t,
+            items: vec![],
+        });
+        pass0_internal(segment.clone(), &context, &parsed.macroses)?;
     }
 
     Ok(context.as_pass0_result())
@@ -145,16 +139,12 @@ fn pass0_internal(
                     // first segment continues segment of the caller
                     pass0_internal(segments[0].clone(), context, macroses)?;
                     for segment in segments.iter().skip(1) {
-                        if segment.t == SegmentType::Code {
-                            context.add_segment(Segment {
-                                address: segment.address,
-                                t: segment.t,
-                                items: vec![],
-                            });
-                            pass0_internal(segment.clone(), context, macroses)?;
-                        } else {
-                            context.add_segment(segment.clone());
-                        }
+                        context.add_segment(Segment {
+                            address: segment.address,
+                            t: segment.t,
+                            items: vec![],
+                        });
+                        pass0_internal(segment.clone(), context, macroses)?;
                     }
                     context.macro_depth.set(context.macro_depth.get() - 1);
                 }
@@ -182,7 +172,7 @@ fn macro_expand(
     // so `.org` or switch of segment at start of the body opens new segment
     let segments = Rc::new(RefCell::new(vec![Rc::new(RefCell::new(Segment {
         items: vec![(line.clone(), Item::Label(String::new()))],
-        t: SegmentType::Code,
+        t: context.last_segment().unwrap().borrow().t,
         address: context.last_segment().unwrap().borrow().address,
     }))]));
     if let Some(macro_body) = macroses.get(macro_name) {
